@@ -80,7 +80,9 @@ func deleteFromArray(node *CandidateNode, victim *CandidateNode) {
 		shouldDelete := value == victim
 
 		if !shouldDelete {
-			value.Key.Value = fmt.Sprintf("%v", len(newContents))
+			if value.Key != nil {
+				value.Key.Value = fmt.Sprintf("%v", len(newContents))
+			}
 			newContents = append(newContents, value)
 		}
 	}
